@@ -135,7 +135,7 @@ func (c *check) Init(tier string, seed int64) (sp engine.Space) {
 	bounds["descriptor_and_function_forms"] = len(ex)
 
 	// --- graphs ------------------------------------------------------------------------------
-	allOv := []int{0, 1, 2, 3}
+	allOv := []int{0, 1, 2, 3, 4}
 	addGraph := func(name string, g *graphSpace, e2e bool, batch int64, extra []string) {
 		c.segs = append(c.segs, &segment{name: name, count: g.count(), batch: batch,
 			run: func(i int64, ctx *engine.Ctx) {
@@ -203,12 +203,49 @@ func (c *check) Init(tier string, seed int64) (sp engine.Space) {
 	bounds["tree_menu_core"] = len(core)
 	bounds["tree_menu_mid"] = len(mid)
 
+	// --- paged documents (paged.go) -----------------------------------------------------------
+	allMixes := make([]int, len(pagedMixes))
+	for i := range allMixes {
+		allMixes[i] = i
+	}
+	// the mixes of the larger forests: one of each kind of second computation (pagination,
+	// pending target, both)
+	mainMixes := mixIndexes("page+pages", "fwd-target-counter", "fwd-target-counters", "fwd-target-counter+page")
+	addPaged := func(n int, m []opDef, mname string, mixes []int) {
+		ps := &pagedSpace{n: n, menu: m, shapes: forests(n), mixes: mixes}
+		c.segs = append(c.segs, &segment{name: fmt.Sprintf("paged-%d-%s", n, mname), count: ps.count(), batch: 8,
+			run: func(i int64, ctx *engine.Ctx) { c.runPaged(ctx, ps.at(i), m) },
+			describe: func(i int64) any {
+				pc := ps.at(i)
+				var ops []string
+				for _, o := range pc.tc.ops {
+					ops = append(ops, m[o].name)
+				}
+				return map[string]any{"parents": pc.tc.parents, "ops": ops, "mix": pagedMixes[pc.mix].name}
+			}})
+		bounds[fmt.Sprintf("paged_%d_elements", n)] = map[string]any{"shapes": len(ps.shapes), "menu": len(m), "mixes": len(ps.mixes), "documents": ps.count()}
+	}
+	addPaged(1, full, "full", allMixes)
+	addPaged(2, full, "full", allMixes)
+	if thorough {
+		addPaged(3, core, "core", allMixes)
+		addPaged(3, mid, "mid", mainMixes)
+	} else {
+		addPaged(3, core, "core", mainMixes)
+	}
+	var mixNames []string
+	for _, mx := range pagedMixes {
+		mixNames = append(mixNames, mx.name+": "+mx.content)
+	}
+	bounds["paged_mixes"] = mixNames
+	bounds["paged_document"] = "pages of 2 lines (1000px x 20px, ahem 10px/1); <p id=a counter-reset:d 4>, the forest of the scope family (each element's ::before and ::after is one line), <p id=z>; through render.Layout"
+
 	// --- three-node graphs ------------------------------------------------------------------
 	if thorough {
 		addGraph("graphs-3-nodes", &graphSpace{opts: nodeOptions(3, allOv), nodes: 3, names: plain, values: graphValues}, false, 128, []string{"graph"})
 		addGraph("graphs-3-nodes-e2e", &graphSpace{opts: nodeOptions(3, []int{0}), nodes: 3, names: plain, values: graphValues}, true, 16, []string{"graph"})
 	} else {
-		addGraph("graphs-3-nodes", &graphSpace{opts: nodeOptions(3, []int{0, 1}), nodes: 3, names: plain, values: graphValues}, false, 128, []string{"graph"})
+		addGraph("graphs-3-nodes", &graphSpace{opts: nodeOptions(3, []int{0, 1, 4}), nodes: 3, names: plain, values: graphValues}, false, 128, []string{"graph"})
 	}
 
 	// development knobs (never set by the registered commands): restrict to the segments
@@ -238,7 +275,7 @@ func (c *check) Init(tier string, seed int64) (sp engine.Space) {
 	}
 	return engine.Space{
 		Units: units, Chunk: 32, Level: "model_checking",
-		Rule:   "index-addressable product spaces, simplest first: predefined styles, sequences of three layouts in one process (user, definer, user) over all ordered pairs of a document menu (rule sets x name used), product of author @counter-style rules, descriptor/function forms, fallback/extends graphs (node 0 rendered), HTML lists, element forests x per-element counter operations; every case is run on the real code and compared with the reference; a case is non-trivial when the reference produced text that was compared (always, except documents without any pseudo-element box)",
+		Rule:   "index-addressable product spaces, simplest first: predefined styles, sequences of three layouts in one process (user, definer, user) over all ordered pairs of a document menu (rule sets x name used), product of author @counter-style rules, descriptor/function forms, fallback/extends graphs (node 0 rendered), HTML lists, element forests x per-element counter operations, the same forests laid out on several pages x what stands next to the element counters in the content value; every case is run on the real code and compared with the reference; a case is non-trivial when the reference produced text that was compared (always, except documents without any pseudo-element box)",
 		Bounds: bounds,
 		Assumptions: []string{
 			"symbols are strings/identifiers (no images); grapheme clusters = code points for the symbols used (no combining marks)",
@@ -249,6 +286,7 @@ func (c *check) Init(tier string, seed int64) (sp engine.Space) {
 			"representations of more than 60 symbols (symbolic and additive systems) are implementation-defined by the specification (a limit with fallback is allowed): run for crashes, text not compared; above 20000 symbols not run at all, nor is a value run in an environment where a reachable symbolic/additive style could produce more than 5 000 000 symbols for it if its range were ignored (the implementation builds the whole string: a 2^31 counter value allocates gigabytes)",
 			"CSS numbers are float32 in the implementation's parser: integers beyond 2^24 in a style sheet are rounded, so the end-to-end documents stay below; the direct calls cover them",
 			"display:none <li> and the reversed attribute are outside the HTML-list family",
+			"paged documents: the page a pseudo-element's box is on is taken from the layout itself (where content breaks is C12's subject); counter(page) must be the number of that page and counter(pages) the number of pages (no @page counter operations, no margin boxes); the carriers of the mixed content list are content and bookmark-label of ::before / ::after (string-set, and bookmark-label of elements, are evaluated by the implementation after the element's children: not compared)",
 			"sequences: two documents per process history are enumerated exhaustively (the user's own first rendering is part of the history); @counter-style rules are carried by <style> elements only (not by user style sheets or @import); renders are sequential, not concurrent (that is C15's subject)",
 		},
 	}
